@@ -49,10 +49,6 @@ def pl_codes(t):
     return "[" + ",".join(str(ord(c)) for c in t) + "]"
 
 
-def pl_chars(t):
-    return "[" + ",".join("'\\x%x\\\\'" % ord(c) for c in t) + "]"
-
-
 def pl_chars_line(t):
     """char list as it must appear in a harness line (backslashes doubled by esc_line)."""
     return "[" + ",".join("'\\x%x\\'" % ord(c) for c in t) + "]"
@@ -563,7 +559,7 @@ def run(ctx):
     else:
         for c in diff.load_corpus("C16"):
             items += [dict(it) for it in c.get("items", [])]
-        n_lit, n_mal, n_tok, n_int, n_flt = (1500, 700, 500, 300, 700) if tier == "quick" else (40000, 20000, 6000, 6000, 30000)
+        n_lit, n_mal, n_tok, n_int, n_flt = (1500, 700, 500, 300, 700) if tier == "quick" else (28000, 14000, 4000, 4000, 20000)
         for t in FIXED_MALFORMED:
             items.append({"kind": "lit", "text": t, "cls": "fixed-malformed", "force_read": False})
         for b in ESCAPES + BAD_ESCAPES:
